@@ -28,6 +28,15 @@
 // target segments stay closed) or through the writer's family lookup (Shard.GetOrCrateDataFamily,
 // a new partition; reopens the target segments). A job may so complete one interval and skip the
 // other, skip all, and later catch up, while newer files wait for both intervals.
+// Readers: histories also contain snap / release steps. A reader (a query, a data load) takes a
+// kv snapshot (Family.GetSnapshot) of a source family - or, found the way a query finds it, of the
+// target family that holds that hour - reads the table readers through it and keeps it over the
+// following steps: the pinned old version of a source family keeps listing the files that waited
+// for rollup when it was taken, while rollup jobs roll them up and rollup is triggered again and
+// again (single jobs, Store.ForceRollup, with or without new files, with closed target segments).
+// A reader may also start inside a running job (at the table-create seam, before the job's
+// source commit), is dropped by a restart, and on a crash image a reader may pin the recovered
+// versions of the source families across the repeated rollups.
 // Not generated (unsound input): targets that are not a whole multiple of the source or that
 // neither divide 1 h nor are a multiple of it (DatabaseOption.Validate accepts them, nothing
 // documents them as supported; the rollup arithmetic base slot + source slot / ratio cannot be
@@ -47,6 +56,12 @@
 // yet rolled up, each for exactly the intervals it has not been rolled up into, and no target
 // family keeps a reference file. A crash image is restarted (once
 // or twice), rolled up again twice, and must then hold every source file exactly once.
+// Exactly once is also counted, so that a repetition which the aggregate hides (min, max, first,
+// last, sums of zeros) is seen: a rollup job writes what it merges into a target family into one
+// new file and the histories never compact a target family, hence every cell is stored in
+// exactly as many files of its target family as rollup jobs merged a source file with a point
+// for it. What a reader sees through a held snapshot of a target family is, when it is taken
+// and when it is released, exactly the aggregate of the files rolled up when it was taken.
 //
 // Non-trivial case: some target slot is fed by >= 2 source slots and >= 2 source files were
 // rolled up.
@@ -172,7 +187,7 @@ type famPos struct {
 }
 
 type step struct {
-	Kind   string  `json:"kind"` // write | flush | rollup | reopen | evict | touch
+	Kind   string  `json:"kind"` // write | flush | rollup | reopen | evict | touch | snap | release
 	Points []point `json:"points,omitempty"`
 	// write: the rows go straight into the data families the writer already holds (an existing
 	// write-ahead-log partition keeps its tsdb.DataFamily); otherwise the writer looks the family
@@ -195,6 +210,20 @@ type step struct {
 	// rollup (one job after the other): source-side steps that run while a job is merging into the
 	// target (harness-owned interleaving, see inject)
 	Inject []inject `json:"inject,omitempty"`
+	// snap: a reader (a query, a data load) takes a kv snapshot (Family.GetSnapshot) and keeps it;
+	// release: the reader with that id closes its snapshot(s). A restart drops every reader.
+	Reader *readerOp `json:"reader,omitempty"`
+}
+
+// readerOp: reader ID holds a snapshot of source family Fam (Target == 0) or of the family of
+// target interval Target-1 that holds the hour of source family Fam (found the way a query
+// finds it, Shard.GetDataFamilies; nothing to hold if no rollup has created that family yet).
+// The snapshot pins the version that is current when it is taken: for a source family that
+// version keeps listing the files that wait for rollup at that moment, whatever later jobs commit.
+type readerOp struct {
+	ID     int `json:"id"`
+	Fam    int `json:"fam"`
+	Target int `json:"target,omitempty"`
 }
 
 // inject: while the rollup job of source family JobFam runs, at the moment its At-th output
@@ -206,6 +235,9 @@ type inject struct {
 	At     int     `json:"at"`
 	Fam    int     `json:"fam"`
 	Points []point `json:"points"`
+	// after the write + flush (or alone, Points empty): a reader takes a snapshot of the job's
+	// source family at that moment (the source commit of the job has not happened yet)
+	Reader *readerOp `json:"reader,omitempty"`
 }
 
 type plan struct {
@@ -220,6 +252,9 @@ type plan struct {
 	// restarts on the crash image before the rollup is repeated (2 = the engine is opened, shut
 	// down and opened again, so the manifests are rewritten twice)
 	CrashRestarts int `json:"crashRestarts,omitempty"`
+	// after the restart(s) on the crash image a reader takes a snapshot of every source family
+	// and holds it across the repeated rollups
+	CrashReader bool `json:"crashReader,omitempty"`
 }
 
 // qspec: one `select <field> from <metric> where time in <hour of the family> group by host, time(<target>)`.
@@ -322,8 +357,8 @@ func genPlan(t *rapid.T) *plan {
 	p.Steps = append(p.Steps, g.commit(first))
 	crashUsed := false
 	// one rollup step, optionally with a crash image or harness-owned interleavings
-	mkRollup := func() step {
-		s := g.rollup()
+	mkRollup := func(must int) step {
+		s := g.rollup(must)
 		if !crashUsed && !s.Force && g.hasPending(s.Families) && rapid.IntRange(0, 2).Draw(t, "crashHere") > 0 {
 			s.Crash = g.crashKind()
 			crashUsed = true
@@ -336,13 +371,23 @@ func genPlan(t *rapid.T) *plan {
 		return s
 	}
 	for i := 1; i < nSteps; i++ {
-		switch k := rapid.IntRange(0, 99).Draw(t, "stepKind"); {
+		switch k := rapid.IntRange(0, 111).Draw(t, "stepKind"); {
+		case k >= 100:
+			// readers: an episode (snapshot, rollup, rollup again ...), a single snapshot or a release
+			switch r := rapid.IntRange(0, 9).Draw(t, "readerKind"); {
+			case r < 6:
+				p.Steps = append(p.Steps, g.readerEpisode(mkRollup)...)
+			case r < 8 || len(g.held) == 0:
+				p.Steps = append(p.Steps, g.snap(rapid.IntRange(0, len(p.Families)-1).Draw(t, "readerFam"), true))
+			default:
+				p.Steps = append(p.Steps, g.release())
+			}
 		case k < 30:
 			p.Steps = append(p.Steps, g.writeStep())
 		case k < 52:
 			p.Steps = append(p.Steps, g.flush())
 		case k < 77:
-			p.Steps = append(p.Steps, mkRollup())
+			p.Steps = append(p.Steps, mkRollup(-1))
 		case k < 85:
 			g.reopened()
 			p.Steps = append(p.Steps, step{Kind: "reopen"})
@@ -386,6 +431,7 @@ func genPlan(t *rapid.T) *plan {
 	for _, st := range p.Steps {
 		if st.Crash != "" {
 			p.CrashRestarts = rapid.SampledFrom([]int{1, 1, 2}).Draw(t, "crashRestarts")
+			p.CrashReader = rapid.IntRange(0, 2).Draw(t, "crashReader") == 0
 		}
 	}
 	for i, n := 0, rapid.IntRange(0, 3).Draw(t, "nQueries"); i < n; i++ {
@@ -410,6 +456,72 @@ type stepGen struct {
 	mem, pend map[int]bool
 	onlyFam   int          // >= 0: write() puts every cluster into this family
 	closed    map[int]bool // see closedList
+	// readers that hold a snapshot (ids), last id given out
+	held       []int
+	nextReader int
+}
+
+// snap: a new reader takes a snapshot of source family fam, or (orTarget, 1 in 4) of the target
+// family that holds that hour.
+func (g *stepGen) snap(fam int, orTarget bool) step { return g.snapOf(fam, orTarget, false) }
+
+func (g *stepGen) snapOf(fam int, orTarget, onlyTarget bool) step {
+	g.nextReader++
+	op := &readerOp{ID: g.nextReader, Fam: fam}
+	if onlyTarget || (orTarget && rapid.IntRange(0, 3).Draw(g.t, "readerOfTarget") == 0) {
+		k := rapid.IntRange(0, len(g.p.targets())-1).Draw(g.t, "readerTarget")
+		op.Target = k + 1
+		if len(g.p.Families) == 1 {
+			delete(g.closed, k) // the reader's family lookup opens the segment, like touch
+		}
+	}
+	g.held = append(g.held, op.ID)
+	return step{Kind: "snap", Reader: op}
+}
+
+// release: one of the readers closes its snapshot.
+func (g *stepGen) release() step {
+	i := rapid.IntRange(0, len(g.held)-1).Draw(g.t, "releaseReader")
+	id := g.held[i]
+	g.held = append(append([]int(nil), g.held[:i]...), g.held[i+1:]...)
+	return step{Kind: "release", Reader: &readerOp{ID: id}}
+}
+
+// readerEpisode: a file of the focus family waits for rollup (written and flushed now if there
+// is none), a reader takes a snapshot of the focus family (sometimes a second reader, sometimes of
+// the target family), then 1-3 rollup steps that include the focus family - with or without new
+// files in between - run while the snapshot is held: the pinned old version of the source family
+// still lists the files that the first of those jobs rolls up. Then the reader may close.
+func (g *stepGen) readerEpisode(mkRollup func(must int) step) (rs []step) {
+	t := g.t
+	focus := rapid.IntRange(0, len(g.p.Families)-1).Draw(t, "readerFocus")
+	write := func() {
+		g.onlyFam = focus
+		rs = append(rs, g.writeStep())
+		g.onlyFam = -1
+		rs = append(rs, g.flushWith(focus))
+	}
+	if !g.pend[focus] && rapid.IntRange(0, 4).Draw(t, "readerFilesBefore") > 0 {
+		write()
+	}
+	rs = append(rs, g.snap(focus, true))
+	if rapid.IntRange(0, 3).Draw(t, "secondReader") == 0 {
+		rs = append(rs, g.snap(focus, true))
+	}
+	for r, n := 0, rapid.SampledFrom([]int{1, 2, 2, 3}).Draw(t, "readerRounds"); r < n; r++ {
+		if r > 0 && rapid.Bool().Draw(t, "readerNewFiles") {
+			write()
+		}
+		rs = append(rs, mkRollup(focus))
+		if r == 0 && rapid.IntRange(0, 2).Draw(t, "readerOfTargetAfterRollup") == 0 {
+			// another reader looks at the target family the job has just merged into
+			rs = append(rs, g.snapOf(focus, true, true))
+		}
+	}
+	if len(g.held) > 0 && rapid.Bool().Draw(t, "readerCloses") {
+		rs = append(rs, g.release())
+	}
+	return rs
 }
 
 func (g *stepGen) hasPending(fams []int) bool {
@@ -454,14 +566,29 @@ func (g *stepGen) injections(jobs []int) (rs []inject) {
 		if rapid.IntRange(0, 3).Draw(t, "injectOtherFamily") == 0 {
 			in.Fam = rapid.IntRange(0, len(g.p.Families)-1).Draw(t, "injectFam")
 		}
+		readerOnly := false
+		if rapid.IntRange(0, 3).Draw(t, "injectReader") == 0 {
+			// a reader starts while the job is merging (alone, or after the write + flush)
+			g.nextReader++
+			in.Reader = &readerOp{ID: g.nextReader, Fam: job}
+			g.held = append(g.held, in.Reader.ID)
+			readerOnly = rapid.Bool().Draw(t, "injectReaderOnly")
+		}
+		if readerOnly {
+			in.Fam = job
+			rs = append(rs, in)
+			continue
+		}
 		g.onlyFam = in.Fam
 		w := g.commit(g.write())
 		g.onlyFam = -1
-		if len(w.Points) == 0 {
+		if len(w.Points) == 0 && in.Reader == nil {
 			continue
 		}
-		in.Points = w.Points
-		g.flushed([]int{in.Fam})
+		if len(w.Points) > 0 {
+			in.Points = w.Points
+			g.flushed([]int{in.Fam})
+		}
 		rs = append(rs, in)
 	}
 	return rs
@@ -477,14 +604,15 @@ func (g *stepGen) rolled(fams []int) {
 	}
 }
 
-func (g *stepGen) subset(label string) []int {
+// subset draws the families of a flush / rollup step (nil = all); must >= 0 is always one of them.
+func (g *stepGen) subset(label string, must int) []int {
 	n := len(g.p.Families)
 	if n == 1 || rapid.IntRange(0, 2).Draw(g.t, label+"All") > 0 {
 		return nil
 	}
 	var rs []int
 	for i := 0; i < n; i++ {
-		if rapid.Bool().Draw(g.t, label+"Pick") {
+		if rapid.Bool().Draw(g.t, label+"Pick") || i == must {
 			rs = append(rs, i)
 		}
 	}
@@ -520,6 +648,7 @@ func (g *stepGen) flushed(fams []int) {
 
 func (g *stepGen) reopened() {
 	g.flushed(nil)
+	g.held = nil              // the readers die with the process
 	g.closed = map[int]bool{} // the harness reopens the source families the way a writer does: all target segments open
 }
 
@@ -583,7 +712,7 @@ func (g *stepGen) touch() step {
 // evictEpisode: optionally some files (rolled up or not) first, the eviction, then 1-3 rounds
 // of write (mostly into one focus family; through the held data family or through the writer's
 // family lookup, which reopens the target segments), flush, optionally a query lookup, rollup.
-func (g *stepGen) evictEpisode(mkRollup func() step) (rs []step) {
+func (g *stepGen) evictEpisode(mkRollup func(must int) step) (rs []step) {
 	t := g.t
 	focus := rapid.IntRange(0, len(g.p.Families)-1).Draw(t, "episodeFamily")
 	write := func() {
@@ -597,7 +726,7 @@ func (g *stepGen) evictEpisode(mkRollup func() step) (rs []step) {
 		write()
 		rs = append(rs, g.flush())
 		if rapid.Bool().Draw(t, "episodeRollupBefore") {
-			rs = append(rs, mkRollup())
+			rs = append(rs, mkRollup(-1))
 		}
 	}
 	rs = append(rs, g.evict())
@@ -607,7 +736,7 @@ func (g *stepGen) evictEpisode(mkRollup func() step) (rs []step) {
 		if len(g.closed) > 0 && rapid.IntRange(0, 4).Draw(t, "episodeLookup") == 0 {
 			rs = append(rs, g.touch())
 		}
-		rs = append(rs, mkRollup())
+		rs = append(rs, mkRollup(-1))
 		if rapid.IntRange(0, 5).Draw(t, "episodeEvictAgain") == 0 {
 			rs = append(rs, g.evict())
 		}
@@ -615,14 +744,16 @@ func (g *stepGen) evictEpisode(mkRollup func() step) (rs []step) {
 	return rs
 }
 
-func (g *stepGen) flush() step {
-	s := step{Kind: "flush", Families: g.subset("flush")}
+func (g *stepGen) flush() step { return g.flushWith(-1) }
+
+func (g *stepGen) flushWith(must int) step {
+	s := step{Kind: "flush", Families: g.subset("flush", must)}
 	g.flushed(s.Families)
 	return s
 }
 
-func (g *stepGen) rollup() step {
-	s := step{Kind: "rollup", Families: g.subset("rollup")}
+func (g *stepGen) rollup(must int) step {
+	s := step{Kind: "rollup", Families: g.subset("rollup", must)}
 	if len(s.Families) == 0 && rapid.IntRange(0, 3).Draw(g.t, "force") == 0 {
 		s.Force = true
 	}
@@ -798,6 +929,7 @@ type contrib struct {
 	TS   int64
 	Slot int64 // absolute source slot (TS / source)
 	File int   // id of the source file (flush) that carries the point
+	Job  int   // id of the rollup job that merged that file into this target interval
 	V    float64
 }
 
@@ -824,6 +956,7 @@ func typeDir(target int64) string {
 type filePoints struct {
 	ID     int
 	Points []point
+	jobs   map[int64]int // target interval -> id of the rollup job that merged the file into it
 }
 
 // srcFile is one flushed source file and the target intervals it has been rolled up into.
@@ -897,7 +1030,7 @@ func expected(p *plan, target int64, files []filePoints) map[cell][]contrib {
 			seg, fam, slot := targetPos(target, pt.TS)
 			for _, v := range pt.Vals {
 				c := cell{seg, fam, pt.Metric, pt.Series, v.F, slot}
-				out[c] = append(out[c], contrib{TS: pt.TS, Slot: pt.TS / p.Source, File: f.ID, V: float64(v.K) / 8})
+				out[c] = append(out[c], contrib{TS: pt.TS, Slot: pt.TS / p.Source, File: f.ID, Job: f.jobs[target], V: float64(v.K) / 8})
 			}
 		}
 	}
@@ -932,6 +1065,14 @@ type env struct {
 	reopened bool
 	kvOnly   bool // see targetFamilies
 	classes  map[string]bool
+
+	readers    map[int]*heldReader // readers that hold snapshots, by id
+	extraSnaps []version.Snapshot  // snapshots held on the crash image
+	jobSeq     int                 // rollup jobs run so far (job ids)
+	// every rollup job writes what it merges into a target family into one new file and the
+	// history contains no compaction of target families: a cell is stored in exactly as many
+	// files as jobs contributed to it (switched off where the model does not know the jobs)
+	countFiles bool
 
 	crashDir   string // image directory (taken at most once)
 	crashKind  string
@@ -1086,7 +1227,7 @@ func (e *env) evict(s step) {
 }
 
 // touch is the family lookup of a query on the target interval over the hour of a source family.
-func (e *env) touch(targetIdx, fam int) {
+func (e *env) touch(targetIdx, fam int) []tsdb.DataFamily {
 	target := e.p.targets()[targetIdx]
 	ft := e.fams[fam].pos.Time
 	wasOpen := e.targetOpen(target, ft)
@@ -1101,6 +1242,152 @@ func (e *env) touch(targetIdx, fam int) {
 	}
 	if !wasOpen {
 		e.class("query lookup reopened a closed target segment")
+	}
+	return dfs
+}
+
+// ---- readers: held kv snapshots ----------------------------------------------------------------------
+
+// heldReader is a reader (query, data load) that took kv snapshots and has not closed them.
+type heldReader struct {
+	op    readerOp
+	since string
+	snaps []heldSnap
+	// source reader: the (file, target interval) pairs that wait for rollup in the pinned version
+	listed map[*srcFile][]int64
+	midJob bool
+}
+
+type heldSnap struct {
+	snap version.Snapshot
+	// target reader: the family and what the pinned version must read (the aggregate of the
+	// files rolled up into that family when the snapshot was taken)
+	tf     targetFamily
+	target int64
+	want   map[cell][]contrib
+}
+
+func (e *env) readerIDs() (rs []int) {
+	for id := range e.readers {
+		rs = append(rs, id)
+	}
+	sort.Ints(rs)
+	return rs
+}
+
+// takeReader: the reader takes its snapshot(s) the way a query does: the family's current
+// version is retained (Family.GetSnapshot) and the table readers of its files are fetched
+// through the snapshot.
+func (e *env) takeReader(op readerOp, when string, midJob bool) {
+	if e.readers == nil {
+		e.readers = map[int]*heldReader{}
+	}
+	r := &heldReader{op: op, since: when, midJob: midJob}
+	e.readers[op.ID] = r // registered first: whatever fails below, the cleanup closes the snapshots
+	if op.Target == 0 {
+		f := e.fams[op.Fam]
+		snap := f.df.Family().GetSnapshot()
+		r.snaps = append(r.snaps, heldSnap{snap: snap})
+		for _, fm := range snap.GetCurrent().GetAllFiles() {
+			if _, err := snap.GetReader(fm.GetFileNumber()); err != nil {
+				e.fatalf("%s: reader %d: source family %s %02d:00 file %d: %v", when, op.ID, f.pos.Date, f.pos.Hour, fm.GetFileNumber(), err)
+			}
+		}
+		r.listed = map[*srcFile][]int64{}
+		waiting, ivs := f.waiting(e.p.targets())
+		for i, sf := range waiting {
+			r.listed[sf] = ivs[i]
+		}
+		e.class("reader: snapshot of a source family")
+		if len(waiting) > 0 {
+			e.class("reader: snapshot of a source family whose version lists files waiting for rollup")
+		}
+		if midJob {
+			e.class("reader: snapshot of the source family taken while its rollup job was merging")
+		}
+		return
+	}
+	target := e.p.targets()[op.Target-1]
+	ft := e.fams[op.Fam].pos.Time
+	seg, _, _ := targetPos(target, ft)
+	dfs := e.touch(op.Target-1, op.Fam)
+	if len(dfs) == 0 {
+		e.class("reader: lookup of a target family that no rollup has created yet (nothing to hold)")
+	}
+	id := e.resolveIDs()
+	for _, df := range dfs {
+		tf := targetFamily{Segment: seg, Family: df.Family().Name(), kvFamily: df.Family()}
+		want := map[cell][]contrib{}
+		for c, cs := range expected(e.p, target, e.rolledFiles(target)) {
+			if c.Segment == tf.Segment && c.Family == tf.Family {
+				want[c] = cs
+			}
+		}
+		hs := heldSnap{snap: tf.kvFamily.GetSnapshot(), tf: tf, target: target, want: want}
+		r.snaps = append(r.snaps, hs)
+		e.class("reader: snapshot of a target family")
+		e.readHeld(fmt.Sprintf("%s: reader %d takes a snapshot of the target family", when, op.ID), hs, id)
+	}
+}
+
+// readHeld: what a reader sees through its snapshot of a target family is the aggregate of the
+// files that were rolled up into the family when the snapshot was taken, whatever was rolled up since.
+func (e *env) readHeld(when string, hs heldSnap, id *ids) {
+	got := map[cell][]stored{}
+	if msg := e.readFamily(hs.tf, hs.snap, id, got); msg != "" {
+		e.fatalf("%s: %s", when, msg)
+	}
+	e.compare(when, hs.target, hs.want, got, nil)
+}
+
+// releaseReader: the reader reads once more through its target snapshots, then closes.
+func (e *env) releaseReader(id int, when string, check bool) {
+	r, ok := e.readers[id]
+	if !ok {
+		// a reader that was to start inside a rollup job never started if the job did not
+		// create that output table (nothing to merge, target segment closed)
+		for _, s := range e.p.Steps {
+			for _, in := range s.Inject {
+				if in.Reader != nil && in.Reader.ID == id {
+					return
+				}
+			}
+		}
+		e.fatalf("harness: release of reader %d which holds nothing", id)
+	}
+	delete(e.readers, id)
+	defer func() {
+		for _, hs := range r.snaps {
+			hs.snap.Close()
+		}
+	}()
+	if !check {
+		return
+	}
+	var names *ids
+	for _, hs := range r.snaps {
+		if hs.want == nil {
+			continue
+		}
+		if names == nil {
+			names = e.resolveIDs()
+		}
+		e.readHeld(fmt.Sprintf("%s: reader %d reads through the snapshot of the target family it holds since %s", when, id, r.since), hs, names)
+		rolled := 0
+		for c := range expected(e.p, hs.target, e.rolledFiles(hs.target)) {
+			if c.Segment == hs.tf.Segment && c.Family == hs.tf.Family {
+				rolled++
+			}
+		}
+		if rolled > len(hs.want) {
+			e.class("reader: old snapshot of a target family read after later rollups added cells to the family")
+		}
+	}
+}
+
+func (e *env) releaseAll(when string, check bool) {
+	for _, id := range e.readerIDs() {
+		e.releaseReader(id, when, check)
 	}
 }
 
@@ -1209,7 +1496,7 @@ func (e *env) memToFile(f *famState) {
 		return
 	}
 	e.nextID++
-	f.files = append(f.files, &srcFile{filePoints: filePoints{ID: e.nextID, Points: f.mem}, done: map[int64]bool{}})
+	f.files = append(f.files, &srcFile{filePoints: filePoints{ID: e.nextID, Points: f.mem, jobs: map[int64]int{}}, done: map[int64]bool{}})
 	f.mem = nil
 }
 
@@ -1404,14 +1691,21 @@ func (e *env) inject(in inject) (failure string) {
 	// through the held data family: the lookup of a new writer would reopen closed target
 	// segments in the middle of the job, and whether the job has already passed that interval
 	// depends on a map iteration order
-	e.write(in.Points, true)
-	e.flush([]int{in.Fam})
-	e.class("source flush committed while a rollup job was merging")
-	if in.Fam == in.JobFam {
-		e.class("source flush of the SAME family committed while its rollup job was merging")
+	if len(in.Points) > 0 {
+		e.write(in.Points, true)
+		e.flush([]int{in.Fam})
+		e.class("source flush committed while a rollup job was merging")
+		if in.Fam == in.JobFam {
+			e.class("source flush of the SAME family committed while its rollup job was merging")
+		}
+		if in.At > 0 {
+			e.class("source flush committed between the two target merges of a rollup job")
+		}
 	}
-	if in.At > 0 {
-		e.class("source flush committed between the two target merges of a rollup job")
+	if in.Reader != nil {
+		// the job has not committed on the source family yet: the version the reader pins lists
+		// the job's input files as waiting
+		e.takeReader(*in.Reader, fmt.Sprintf("inside the rollup job of family %d (output table %d created)", in.JobFam, in.At), true)
 	}
 	return ""
 }
@@ -1474,6 +1768,25 @@ func (e *env) jobInputs(f *famState) *jobInputs {
 	return in
 }
 
+// concurrentJobsShareTargetFamily: two of the families belong to the same source store (day) and
+// both have files to merge into the same target interval (hence into the same target family).
+func (e *env) concurrentJobsShareTargetFamily(sel []*famState, jobs map[*famState]*jobInputs) bool {
+	seen := map[string]bool{}
+	for _, f := range sel {
+		for _, target := range e.p.targets() {
+			if len(jobs[f].byTarget[target]) == 0 {
+				continue
+			}
+			key := fmt.Sprintf("%s/%d", f.pos.Date, target)
+			if seen[key] {
+				return true
+			}
+			seen[key] = true
+		}
+	}
+	return false
+}
+
 func (e *env) rollup(s step) {
 	sel := e.selected(s.Families)
 	jobs := map[*famState]*jobInputs{}
@@ -1499,11 +1812,25 @@ func (e *env) rollup(s step) {
 			}
 			stores[name] = st
 		}
-		for _, name := range names {
-			stores[name].ForceRollup()
-		}
-		for _, f := range sel {
-			waitRollup(f.df.Family())
+		if ev.Known(sigCloneSharesReferences) && e.concurrentJobsShareTargetFamily(sel, jobs) {
+			// known finding (regression_test.go): two jobs of one source store that merge into the
+			// same target family at the same time can stop the process; while it is listed the
+			// jobs of such a step run one after the other
+			e.class("Store.ForceRollup replaced by one job after the other (known finding " + sigCloneSharesReferences + ")")
+			for _, f := range sel {
+				kv.VerifRollup(f.df.Family())
+				waitRollup(f.df.Family())
+			}
+		} else {
+			if e.concurrentJobsShareTargetFamily(sel, jobs) {
+				e.class("Store.ForceRollup: >= 2 jobs of one source store merge into the same target family concurrently")
+			}
+			for _, name := range names {
+				stores[name].ForceRollup()
+			}
+			for _, f := range sel {
+				waitRollup(f.df.Family())
+			}
 		}
 	} else {
 		for _, f := range sel {
@@ -1586,9 +1913,54 @@ func (e *env) rollup(s step) {
 				}
 			}
 		}
+		// readers that hold a snapshot while this job runs
+		for _, id := range e.readerIDs() {
+			r := e.readers[id]
+			if r.op.Fam != f.idx {
+				continue
+			}
+			if r.op.Target > 0 {
+				if tg := targets[r.op.Target-1]; len(in.byTarget[tg]) > 0 && len(r.snaps) > 0 {
+					e.class("reader: snapshot of a target family held while a rollup job merges into that family")
+				}
+				continue
+			}
+			if r.midJob {
+				r.midJob = false // this is the job the reader started in
+				continue
+			}
+			if len(in.files) > 0 {
+				e.class("reader: snapshot of a source family held across a rollup job that merges files")
+			}
+			pinned := false
+			for sf, ivs := range r.listed {
+				for _, tg := range ivs {
+					pinned = pinned || sf.done[tg]
+				}
+			}
+			if pinned {
+				// the hinted shape: the version the reader pins still lists files (for intervals)
+				// that an earlier job has rolled up, and rollup is triggered again
+				e.class("reader: rollup triggered again while a held source snapshot pins a version that still lists rolled-up files")
+				if s.Force {
+					e.class("reader: ... triggered again through Store.ForceRollup")
+				}
+				if len(in.files) > 0 {
+					e.class("reader: ... triggered again with new files to merge")
+				}
+				if len(in.skipped) > 0 {
+					e.class("reader: ... triggered again while a target segment is closed")
+				}
+				if e.reopened {
+					e.class("reader: ... triggered again after a restart (new readers)")
+				}
+			}
+		}
+		e.jobSeq++
 		for target, files := range in.byTarget {
 			for _, sf := range files {
 				sf.done[target] = true
+				sf.jobs[target] = e.jobSeq
 			}
 		}
 		f.rollups++
@@ -1808,61 +2180,67 @@ func (e *env) readTarget(target int64, id *ids) (map[cell][]stored, map[string]b
 	tfs, closed := e.targetFamilies(target)
 	for _, tf := range tfs {
 		snap := tf.kvFamily.GetSnapshot()
-		v := snap.GetCurrent()
-		files := v.GetAllFiles()
-		sort.Slice(files, func(i, j int) bool { return files[i].GetFileNumber() < files[j].GetFileNumber() })
-		for _, fm := range files {
-			reader, err := snap.GetReader(fm.GetFileNumber())
-			if err != nil {
-				snap.Close()
-				e.fatalf("target %s/%s file %d: %v", tf.Segment, tf.Family, fm.GetFileNumber(), err)
-			}
-			fileName := fmt.Sprintf("%s/%s/%s", tf.Segment, tf.Family, reader.FileName())
-			it := reader.Iterator()
-			for it.HasNext() {
-				metricID := it.Key()
-				m, ok := id.metricOf[metricID]
-				if !ok {
-					snap.Close()
-					e.fatalf("target %s holds metric id %d that no written metric has", fileName, metricID)
-				}
-				seen := map[cell]bool{}
-				var bad string
-				err := decodeBlock(fileName, it.Value(), func(seriesID uint32, f field.Meta, slot uint16, val float64) {
-					fi, ok := id.fieldOf[m][uint8(f.ID)]
-					if !ok {
-						bad = fmt.Sprintf("field id %d unknown for metric m%d", f.ID, m)
-						return
-					}
-					if f.Type != fieldDefs[fi].FType {
-						bad = fmt.Sprintf("field %s stored with type %s", fieldDefs[fi].Name, f.Type)
-						return
-					}
-					si, ok := id.seriesOf[m][seriesID]
-					if !ok {
-						bad = fmt.Sprintf("series id %d unknown for metric m%d", seriesID, m)
-						return
-					}
-					c := cell{tf.Segment, tf.Family, m, si, fi, int(slot)}
-					if seen[c] {
-						bad = fmt.Sprintf("%s delivered twice", c)
-					}
-					seen[c] = true
-					out[c] = append(out[c], stored{File: fileName, V: val})
-				})
-				if err != nil {
-					snap.Close()
-					e.fatalf("target %s metric m%d: %v", fileName, m, err)
-				}
-				if bad != "" {
-					snap.Close()
-					e.fatalf("target %s metric m%d: %s", fileName, m, bad)
-				}
-			}
-		}
+		msg := e.readFamily(tf, snap, id, out)
 		snap.Close()
+		if msg != "" {
+			e.fatalf("%s", msg)
+		}
 	}
 	return out, closed
+}
+
+// readFamily reads every stored value of the files of the snapshot's version of one target
+// family into out; it returns a description of what is wrong with the stored blocks, if anything.
+func (e *env) readFamily(tf targetFamily, snap version.Snapshot, id *ids, out map[cell][]stored) string {
+	v := snap.GetCurrent()
+	files := v.GetAllFiles()
+	sort.Slice(files, func(i, j int) bool { return files[i].GetFileNumber() < files[j].GetFileNumber() })
+	for _, fm := range files {
+		reader, err := snap.GetReader(fm.GetFileNumber())
+		if err != nil {
+			return fmt.Sprintf("target %s/%s file %d: %v", tf.Segment, tf.Family, fm.GetFileNumber(), err)
+		}
+		fileName := fmt.Sprintf("%s/%s/%s", tf.Segment, tf.Family, reader.FileName())
+		it := reader.Iterator()
+		for it.HasNext() {
+			metricID := it.Key()
+			m, ok := id.metricOf[metricID]
+			if !ok {
+				return fmt.Sprintf("target %s holds metric id %d that no written metric has", fileName, metricID)
+			}
+			seen := map[cell]bool{}
+			var bad string
+			err := decodeBlock(fileName, it.Value(), func(seriesID uint32, f field.Meta, slot uint16, val float64) {
+				fi, ok := id.fieldOf[m][uint8(f.ID)]
+				if !ok {
+					bad = fmt.Sprintf("field id %d unknown for metric m%d", f.ID, m)
+					return
+				}
+				if f.Type != fieldDefs[fi].FType {
+					bad = fmt.Sprintf("field %s stored with type %s", fieldDefs[fi].Name, f.Type)
+					return
+				}
+				si, ok := id.seriesOf[m][seriesID]
+				if !ok {
+					bad = fmt.Sprintf("series id %d unknown for metric m%d", seriesID, m)
+					return
+				}
+				c := cell{tf.Segment, tf.Family, m, si, fi, int(slot)}
+				if seen[c] {
+					bad = fmt.Sprintf("%s delivered twice", c)
+				}
+				seen[c] = true
+				out[c] = append(out[c], stored{File: fileName, V: val})
+			})
+			if err != nil {
+				return fmt.Sprintf("target %s metric m%d: %v", fileName, m, err)
+			}
+			if bad != "" {
+				return fmt.Sprintf("target %s metric m%d: %s", fileName, m, bad)
+			}
+		}
+	}
+	return ""
 }
 
 // ---- oracle -------------------------------------------------------------------------------------------
@@ -1956,6 +2334,25 @@ func (e *env) compare(when string, target int64, want map[cell][]contrib, got ma
 	for _, c := range sortedCells(got) {
 		if _, ok := want[c]; !ok {
 			e.fatalf("%s: target %s holds %s = %+v, no rolled-up source point falls into it", when, iv, c, got[c])
+		}
+	}
+	if !e.countFiles {
+		return
+	}
+	// exactly once, also for aggregates that hide a repetition (min, max, first, last, sum of
+	// zeros): a job writes everything it merges into a target family into one new file, so a cell
+	// is stored once per job that merged a source file with a point for it
+	for _, c := range sortedCells(want) {
+		if closed[c.Segment] {
+			continue
+		}
+		jobs := map[int]bool{}
+		for _, x := range want[c] {
+			jobs[x.Job] = true
+		}
+		if st := got[c]; len(st) != len(jobs) {
+			e.fatalf("%s: target %s %s is stored in %d files %+v, but %d rollup job(s) merged a source file with a point for it (a source file contributed more or less than once); source points %+v",
+				when, iv, c, len(st), st, len(jobs), want[c])
 		}
 	}
 }
@@ -2185,9 +2582,17 @@ func runPlan(t tb, p *plan) (classes []string, nontrivial bool) {
 		t.Fatalf("tempdir: %v", err)
 	}
 	caseCounter++
-	e := &env{t: t, p: p, dir: dir, classes: map[string]bool{}, db: fmt.Sprintf("%s%d", dbName, caseCounter)}
+	e := &env{t: t, p: p, dir: dir, classes: map[string]bool{}, db: fmt.Sprintf("%s%d", dbName, caseCounter), countFiles: true}
 	defer func() {
 		_, _ = theImager.disarm()
+		for _, r := range e.readers {
+			for _, hs := range r.snaps {
+				hs.snap.Close()
+			}
+		}
+		for _, snap := range e.extraSnaps {
+			snap.Close()
+		}
 		if e.n != nil {
 			e.closeNode()
 		}
@@ -2223,8 +2628,17 @@ func runPlan(t tb, p *plan) (classes []string, nontrivial bool) {
 			e.checkBookkeeping(when, e.fams, false)
 		case "touch":
 			e.touch(s.Target, s.TouchFam)
+		case "snap":
+			e.takeReader(*s.Reader, when, false)
+		case "release":
+			e.releaseReader(s.Reader.ID, when, true)
+			e.class("reader: closed by a step of the history")
 		case "reopen":
-			e.closeNode() // production shutdown flushes the memory databases
+			if len(e.readers) > 0 {
+				e.class("reader: dropped by a restart")
+			}
+			e.releaseAll(when, true) // the readers die with the process
+			e.closeNode()            // production shutdown flushes the memory databases
 			for _, f := range e.fams {
 				e.memToFile(f)
 			}
@@ -2247,6 +2661,10 @@ func runPlan(t tb, p *plan) (classes []string, nontrivial bool) {
 	}
 
 	e.runQueries()
+	if len(e.readers) > 0 {
+		e.class("reader: snapshot held to the end of the history")
+	}
+	e.releaseAll("end of the history", true)
 
 	// crash image: restart on the image, roll up again, every source file on disk at the crash counts once
 	if e.crashDir != "" {
@@ -2273,6 +2691,14 @@ func runPlan(t tb, p *plan) (classes []string, nontrivial bool) {
 			img.start(e.crashDir)
 			e.n = img.n
 			img.openFamilies()
+		}
+		if p.CrashReader {
+			// a reader (the first query after the restart) pins the recovered version of every
+			// source family, which lists whatever the interrupted job left registered
+			for _, f := range img.fams {
+				e.extraSnaps = append(e.extraSnaps, f.df.Family().GetSnapshot())
+			}
+			e.class("crash image: a reader holds source snapshots across the repeated rollups")
 		}
 		for round := 0; round < 2; round++ {
 			for _, f := range img.fams {
